@@ -1,4 +1,5 @@
 from vlib.core import Check, Family
+from vlib.gentie import gentie_step
 
 CHECK = Check(
     "C11",
@@ -14,6 +15,9 @@ CHECK = Check(
         # (which change storages by whole cubic metres). Runs with RoutingPower = 1 involve no pow at all.
         Family("K", rtol=1e-6, atol_scale=1e-9, args=["models=StorageRouting", "prop=C11", "n=1500"], label="K-storage-routing"),
     ],
+    # tie A: the loop bodies of the arithmetic-only kernels are REGENERATED from the Go source on every run (harness/cmd/owtranslate)
+    # and proved equal to the hand-written model steps (OW/Props/GenTie.lean: gen_eq_*), so the theorems are re-attached to the source
+    pre_steps=[gentie_step],
     level="proof",
     trusted=[
         "hand-written Lean models OW/Kernels/{Muskingum,Lag,StorageRouting}.lean (StorageRouting through OW/Util/FindRoot.lean) of "
